@@ -45,6 +45,9 @@ pub enum ModelParseError {
     #[error("The tree refers to an unknown question, node or PDF")]
     MalformedTree,
 
+    #[error("The question/tree section contains non-ASCII bytes")]
+    NonAsciiTree,
+
     #[error("Failed to parse question: {0}")]
     QuestionParseError(#[from] jlabel_question::ParseError),
 }
